@@ -8,7 +8,8 @@ import PxProofs.BytesLemmas
 * `process_dec`, `loop_fuel`, `parse_unfold` : the fuel of `parse` is never exhausted;
 * `parse_wfd`, `parse_skip_crlf` : macro steps;
 * `parse_append` : feeding `a ++ b` = feeding `a` then `b`;
-* `parse_wf`    : `parse` preserves `WF` and leaves a remainder only when complete.
+* `parse_wf`    : `parse` preserves `WF` and leaves a remainder only when complete;
+* `ChunkedStream`, `parse_stream` : grammar of valid chunked bodies (no trailers) and their decoding.
 -/
 namespace Px.Chunk
 
@@ -511,4 +512,124 @@ theorem parse_wf {c c' : Chunk} {x r : Bytes} (hl : Live c x) (hp : parse c x = 
         · exact absurd (.inl h) hd1
         · exact absurd (.inr h) hd1
         · exact h
+/-! ### grammar of valid chunked bodies -/
+
+/-- a chunk-size line `sz [ext]` announcing `n` bytes: `sz` is any text `int(·, 16)`
+    reads as `n`, the optional extension starts with `;`, no CRLF inside -/
+def SizeLine (sz ext : Bytes) (n : Nat) : Prop :=
+  pyInt 16 sz = some (Int.ofNat n) ∧ 59 ∉ sz ∧ splitCRLF (sz ++ ext) = none ∧
+    (ext = [] ∨ ext.head? = some 59)
+
+/-- chunked bodies without trailers: `(size-line CRLF data CRLF)* last-size-line CRLF CRLF` -/
+inductive ChunkedStream
+  | last (sz ext : Bytes)
+  | chunk (sz ext data : Bytes) (rest : ChunkedStream)
+
+namespace ChunkedStream
+def render : ChunkedStream → Bytes
+  | .last sz ext => sz ++ ext ++ CRLF ++ CRLF
+  | .chunk sz ext data rest => sz ++ ext ++ CRLF ++ (data ++ CRLF ++ rest.render)
+
+def decoded : ChunkedStream → Bytes
+  | .last _ _ => []
+  | .chunk _ _ data rest => data ++ rest.decoded
+
+def Valid : ChunkedStream → Prop
+  | .last sz ext => SizeLine sz ext 0
+  | .chunk sz ext data rest => SizeLine sz ext data.length ∧ data ≠ [] ∧ rest.Valid
+end ChunkedStream
+
+theorem szText_sizeLine {sz ext : Bytes} {n : Nat} (h : SizeLine sz ext n) : szText (sz ++ ext) = sz := by
+  obtain ⟨_, hs, _, he⟩ := h
+  unfold szText
+  rcases he with rfl | he
+  · rw [List.append_nil, splitOnce1_of_not_mem _ _ hs]
+  · cases ext with
+    | nil => simp at he
+    | cons e ext' =>
+      simp only [List.head?_cons, Option.some.injEq] at he; subst he
+      rw [splitOnce1_render _ _ _ hs]
+
+theorem classify_sizeLine {sz ext rest : Bytes} {n : Nat} (h : SizeLine sz ext n)
+    (hh : ¬ (n = 0 ∧ rest.length < 2 ∧ startsWith CRLF rest = true)) :
+    classify (sz ++ ext) rest = .size n := by
+  have hsz := szText_sizeLine h
+  obtain ⟨hp, _, _, _⟩ := h
+  have hnb : ¬ (strip (sz ++ ext)).isEmpty = true := by
+    intro hb
+    have hw := (strip_isEmpty_iff _).1 hb
+    have := pyInt_ws_none 16 sz (fun c hc => hw c (by simp [hc]))
+    rw [hp] at this; simp at this
+  unfold classify
+  simp only [hnb, if_false, hsz, hp, Bool.false_eq_true]
+  have h0 : ¬ (Int.ofNat n < 0) := by simp
+  simp only [h0, if_false]
+  have htn : (Int.ofNat n).toNat = n := rfl
+  rw [htn]
+  split
+  · rename_i hc
+    simp only [Bool.and_eq_true, beq_iff_eq, decide_eq_true_eq] at hc
+    exact absurd ⟨hc.1.1, hc.1.2, hc.2⟩ hh
+  · rfl
+
+
+theorem render_ne_nil (s : ChunkedStream) : s.render ≠ [] := by
+  cases s <;> simp [ChunkedStream.render, CRLF]
+
+/-- a valid chunked stream is decoded completely, consuming exactly its own bytes -/
+theorem parse_stream (s : ChunkedStream) (hv : s.Valid) (c : Chunk) (hs : c.state = .waitingForSize)
+    (hk : c.chunk = []) (t : Bytes) :
+    parse c (s.render ++ t) =
+      .ok ({ state := .complete, body := c.body ++ s.decoded, chunk := [], size := none }, t) := by
+  induction s generalizing c with
+  | last sz ext =>
+    have hsl : SizeLine sz ext 0 := hv
+    have hsp : splitCRLF (c.chunk ++ ((ChunkedStream.last sz ext).render ++ t)) = some (sz ++ ext, CRLF ++ t) := by
+      rw [hk, List.nil_append]
+      have : (ChunkedStream.last sz ext).render ++ t = (sz ++ ext) ++ CRLF ++ (CRLF ++ t) := by
+        simp [ChunkedStream.render]
+      rw [this]; exact splitCRLF_render hsl.2.2.1 _
+    have hcl : classify (sz ++ ext) (CRLF ++ t) = .size 0 :=
+      classify_sizeLine hsl (by simp [CRLF]; omega)
+    rw [parse_unfold (live_of_ne _ (by simp [hs])) (by simp [render_ne_nil]) (by simp [hs]),
+      process_wfs_some hs hsp, hcl]
+    simp only
+    have hlive : Live { c with chunk := [], size := some 0, state := .waitingForData } (CRLF ++ t) :=
+      fun _ => ⟨0, rfl, .inr ⟨rfl, rfl, by simp [CRLF]; omega⟩⟩
+    rw [parse_unfold hlive (by simp [CRLF]) (by simp), process_wfd rfl rfl]
+    simp only [List.length_nil, Nat.sub_zero, List.take_zero, List.append_nil, beq_self_eq_true, if_true,
+      List.drop_zero, ChunkedStream.decoded]
+    have : ((CRLF ++ t).take 2 == CRLF) = true := by simp [CRLF]
+    simp only [this, if_true]
+    have : (CRLF ++ t).drop 2 = t := by simp [CRLF]
+    rw [this]
+    exact parse_done (.inr rfl)
+  | chunk sz ext data rest ih =>
+    obtain ⟨hsl, hd, hvr⟩ := hv
+    have hpos : 0 < data.length := List.length_pos_iff.2 hd
+    have hsp : splitCRLF (c.chunk ++ ((ChunkedStream.chunk sz ext data rest).render ++ t)) =
+        some (sz ++ ext, data ++ CRLF ++ rest.render ++ t) := by
+      rw [hk, List.nil_append]
+      have : (ChunkedStream.chunk sz ext data rest).render ++ t =
+          (sz ++ ext) ++ CRLF ++ (data ++ CRLF ++ rest.render ++ t) := by
+        simp [ChunkedStream.render]
+      rw [this]; exact splitCRLF_render hsl.2.2.1 _
+    have hcl : classify (sz ++ ext) (data ++ CRLF ++ rest.render ++ t) = .size data.length :=
+      classify_sizeLine hsl (by omega)
+    rw [parse_unfold (live_of_ne _ (by simp [hs])) (by simp [render_ne_nil]) (by simp [hs]),
+      process_wfs_some hs hsp, hcl]
+    simp only
+    rw [parse_wfd (n := data.length) rfl rfl (by simpa using hpos) (by simp [hd])]
+    have hsh : ¬ (data ++ CRLF ++ rest.render ++ t).length < data.length - ([] : Bytes).length := by
+      simp only [List.length_append, List.length_nil]; omega
+    simp only [hsh, if_false]
+    have ht : (data ++ CRLF ++ rest.render ++ t).take (data.length - ([] : Bytes).length) = data := by
+      simp [List.append_assoc]
+    have hdr : (data ++ CRLF ++ rest.render ++ t).drop (data.length - ([] : Bytes).length) =
+        CRLF ++ (rest.render ++ t) := by
+      simp [List.append_assoc]
+    rw [ht, hdr, parse_skip_crlf rfl rfl, ih hvr _ rfl rfl]
+    simp [ChunkedStream.decoded]
+
+
 end Px.Chunk
